@@ -117,7 +117,26 @@ class SInt:
         if isinstance(o, int) and o >= 0 and (o & (o + 1)) == 0:   # mask 2^k - 1
             nonneg(self, "operand of &")
             return sdivmod(self, o + 1)[1]
-        raise Unsupported("& with a symbolic operand other than a low-bit mask")
+        if isinstance(o, int) and o >= 0:
+            # a constant mask is a sum of runs of ones: bits lo .. lo+w-1 of x are ((x >> lo) mod 2^w)  (floor semantics agree
+            # with Python's two's-complement view of negative ints)
+            nonneg(self, "operand of &")
+            total, lo, m = None, 0, o
+            while m:
+                if m & 1:
+                    w = 0
+                    while (m >> w) & 1:
+                        w += 1
+                    part = sdivmod(sdivmod(self, 1 << lo)[0] if lo else self, 1 << w)[1]
+                    part = part << lo if lo else part
+                    total = part if total is None else total + part
+                    m >>= w
+                    lo += w
+                else:
+                    m >>= 1
+                    lo += 1
+            return total if total is not None else SInt(z3.IntVal(0))
+        raise Unsupported("& with a symbolic operand other than a non-negative constant mask")
 
     __rand__ = __and__
 
